@@ -114,6 +114,23 @@ def h_convert(ctx):
             want = vals[k] if equiv else a * vals[k] + b
             ctx.check(ctx.eq(z.magnitude[0][k], want, tol=1e-9), "prepare-conversion", {"sig": sig})
         ctx.check((conv is None) == equiv, "prepare-converts-iff-not-equivalent", {"sig": sig})
+    # --- prepare under metadata that demands a fixed mask (unmasked quantity payload gets wrapped)
+    g1 = fm.UniformGrid((3,))
+    minfo = fm.Info(time=hlib.T0, grid=g1, units=u2, mask=np.array([False, True]))
+    offset_pair = comp and abs(affine(u1, u2)[1]) > 0
+    if offset_pair:
+        res = "skipped"  # numpy.ma cannot add an offset to a masked OBJECT array (proxy limitation, stated)
+    else:
+        try:
+            zm = dtools.prepare(fm.UNITS.Quantity(np.array(vals, dtype=object), u1), minfo)
+            res = "ok"
+        except FinamDataError:
+            res = "refused"
+        ctx.check((res == "ok") == comp, "prepare-masked-accepts-iff-compatible", {"sig": sig})
+    if res == "ok" and comp:
+        a, b = affine(u1, u2)
+        want = vals[0] if equiv else a * vals[0] + b
+        ctx.check(ctx.eq(np.ma.getdata(zm.magnitude)[0][0], want, tol=1e-9), "prepare-masked-conversion", {"sig": sig})
     # --- across a link (producer units u1, consumer units u2)
     out = fm.Output(name="out", info=fm.Info(time=hlib.T0, grid=fm.NoGrid(1), units=u1))
     inp = fm.Input(name="in", info=fm.Info(time=hlib.T0, grid=fm.NoGrid(1), units=u2))
